@@ -2,6 +2,7 @@ package props
 
 import (
 	"fmt"
+	"strings"
 	"testing"
 
 	lib "github.com/corazawaf/libinjection-go"
@@ -132,6 +133,39 @@ func sampled(s string, k uint32) bool {
 	return h%k == 0
 }
 
+// fiveTokenPatternInputs realises the four class patterns of the folder's five-token
+// special cases: 1 (o|,) ( 1 ) / n o ( (n|1) ) / 1 ) , ( 1 / n ) o ( n.
+func fiveTokenPatternInputs() []string {
+	real := map[byte][]string{
+		'1': {"1", "2.5", "\\ *"}, // backslash + arithmetic operator becomes a number (and leaves the operator behind)
+		'n': {"foo", "in", "x_y"}, // IN without '(' becomes a bare word
+		'o': {"=", "*", "like"},
+		',': {","},
+		'(': {"("},
+		')': {")"},
+	}
+	pats := []string{"1o(1)", "1,(1)", "no(n)", "no(1)", "1),(1", "n)o(n"}
+	var out []string
+	for _, p := range pats {
+		acc := []string{""}
+		for i := 0; i < len(p); i++ {
+			var next []string
+			for _, a := range acc {
+				for _, r := range real[p[i]] {
+					if a == "" {
+						next = append(next, r)
+					} else {
+						next = append(next, a+" "+r)
+					}
+				}
+			}
+			acc = next
+		}
+		out = append(out, acc...)
+	}
+	return out
+}
+
 func sqlCase(in string) ev.Case { return ev.Case{Kind: "diff", In: in} }
 
 // sqlTruncations: every prefix of every literal form and of every corpus entry (G4).
@@ -214,6 +248,26 @@ func TestC06(t *testing.T) {
 		judge(w, s)
 	})
 
+	// five-token patterns (each class realised by several atoms, including late-rewritten ones)
+	// followed by every sequence of 0..3 (thorough 4) trailing atoms: the folder re-enters its
+	// loop with left > 0 and a sixth token in hand
+	pats := fiveTokenPatternInputs()
+	trail := []string{"1", "foo", "=", "(", ")", ",", "union", "select", "or", "-", "'a'", "/*c*/"}
+	Lt := pick(3, 4)
+	p = c.rec.NewPart("five_token_patterns_with_tails", fmt.Sprintf("%d realisations of the four five-token patterns x every sequence of 0..%d trailing atoms over %d atoms", len(pats), Lt, len(trail)), false, true, "")
+	c.EnumSeq(p, trail, " ", 0, Lt, func(w *Worker, tail string) {
+		for _, pre := range pats {
+			s := pre
+			if tail != "" {
+				s += " " + tail
+			}
+			if sampled(s, 29) {
+				ruleCoverage(w.l, s)
+			}
+			judge(w, s)
+		}
+	})
+
 	// truncations
 	tr := sqlTruncationInputs()
 	p = c.rec.NewPart("truncations", "every prefix of every literal form behind 12 contexts, every prefix of every corpus input", false, true, "")
@@ -228,6 +282,20 @@ func TestC06(t *testing.T) {
 			s = ""
 		}
 		return sqlCase(s)
+	})
+
+	p = c.rec.NewPart("rapid_token_sequences", "rapid: 5..16 token atoms (35-atom list + quotes, comments, keywords) joined by drawn separators - deep folder states", true, false, "")
+	atomsX := append(append([]string{}, tokenAtoms...), "'", "\"", "#", "-- ", "and", "by", "group", "order", "from", "null", "is", "2", "'b'", "@@x", "sleep(1)", "user()", "x.y", "!!", "~", "not in", "between", "case", "when", "0x1", "$a$b$a$", "q'(a)'", "[x]", "`y`")
+	c.Rapid(p, 8, pick(20000, 500000), func(rt *rapid.T, sh int) ev.Case {
+		n := rapid.IntRange(5, 16).Draw(rt, "n")
+		var sb strings.Builder
+		for i := 0; i < n; i++ {
+			if i > 0 {
+				sb.WriteString(rapid.SampledFrom([]string{" ", " ", " ", "", "\t", "/**/"}).Draw(rt, "sep"))
+			}
+			sb.WriteString(rapid.SampledFrom(atomsX).Draw(rt, "atom"))
+		}
+		return sqlCase(sb.String())
 	})
 
 	// (3) corpus mutation
